@@ -241,6 +241,14 @@ Proof.
   destruct (x =? b); [now rewrite IH|reflexivity].
 Qed.
 
+(* find_common_prefix (no outputs) computes the same length *)
+Lemma fcp0_lcp bs : forall st, fcp0 st bs = lcp (map linp st) bs.
+Proof.
+  induction bs as [|b bs IH]; intros [|u rest]; cbn [fcp0 lcp map]; try reflexivity.
+  unfold linp at 1. destruct (u_last u) as [[i o]|]; cbn; [|reflexivity].
+  destruct (i =? b); [now rewrite IH|reflexivity].
+Qed.
+
 (* find_common_prefix_and_set_output keeps every node's input bytes and only moves outputs *)
 Lemma fcp_spec bs : forall st out st' p o, fcp st bs out = Ok (st', p, o) ->
   map sk st' = map sk st /\ p = lcp (map linp st) bs.
@@ -516,7 +524,14 @@ Proof.
     + unfold set_root_output in H. destruct (b_stack b1) as [|r rest] eqn:Es; [discriminate|].
       inversion H; subst. cbn [b_stack b_reg b_last with_stack with_len]. split; [|auto].
       unfold stack_inv in *. cbn [map] in *. exact Hst.
-  - set (o0 := match out with Some o => o | None => 0 end) in H.
+  - destruct ((match out with None => true | Some _ => false end) &&
+              Nat.eqb (fcp0 (b_stack b1) (c :: bs)) (length (c :: bs))) eqn:Edup.
+    { (* a repeated add of the previous key: the state is unchanged *)
+      apply andb_true_iff in Edup as [_ Edup]. apply Nat.eqb_eq in Edup.
+      inversion H; subst b'. split; [|auto].
+      rewrite fcp0_lcp, map_linp_sk in Edup. pose proof Hst as (S1 & _). rewrite S1, lcp_cpl in Edup.
+      destruct (cpl_facts k (c :: bs) Hle) as (_ & _ & _ & P4 & _). now rewrite <- (P4 Edup). }
+    set (o0 := match out with Some o => o | None => 0 end) in H.
     destruct (fcp (b_stack b1) (c :: bs) o0) as [[[st p] o]| |] eqn:Ef; try discriminate.
     destruct (fcp_spec _ _ _ _ _ _ Ef) as [Hsk Hp].
     pose proof Hst as Hst0. unfold stack_inv in Hst0. rewrite <- Hsk in Hst0.
@@ -710,7 +725,8 @@ Proof.
   unfold insert_output. destruct bs as [|c bs].
   - destruct (match out with None => _ | Some _ => _ end); [apply noerr_ok|].
     unfold set_root_output. destruct (b_stack b); [apply noerr_panic|apply noerr_ok].
-  - pose proof (noerr_fcp (c :: bs) (b_stack b) (match out with Some o => o | None => 0 end)) as Hf.
+  - destruct (_ && _); [apply noerr_ok|].
+    pose proof (noerr_fcp (c :: bs) (b_stack b) (match out with Some o => o | None => 0 end)) as Hf.
     destruct (fcp _ _ _) as [[[st p] o]|x|]; [| exfalso; eapply Hf; eauto | apply noerr_panic].
     destruct (Nat.eqb p _); [destruct (o =? 0); [apply noerr_ok|apply noerr_panic]|].
     unfold compile_from.
